@@ -101,7 +101,7 @@ __CPROVER_ensures(/* the last block holds 1..blockSize elements and is not (also
         Mutant('new_block_when_one_left', XD, r'm_blockIndex\.back\(\)->size\(\) >= m_blockSize\)', 'm_blockIndex.back()->size() + 1 >= m_blockSize)', expect=None),
         Mutant('emptied_block_kept_in_index', XD, r'            m_blockIndex\.pop_back\(\);\n(\s*\}\s*\}\s*void\s*resize)', r'\1', expect=None),
     ],
-    mechanisms=['XalanDeque block index and free list'],
+    mechanisms=['XalanDeque block index and free list', 'deque block management'],
     assumptions=['m_blockIndex / m_freeBlockVector (XalanVector of block pointers) and the blocks (XalanVector of elements) have the std::vector meaning; they are observed through counts and the identity / fill of the last block and the identities of the last and first free block',
                  'representation invariant INV (all index blocks but the last are full, the last is non-empty, free blocks are empty and not in the index) is assumed on entry; push_back re-establishes its fill / ownership part (the thin model cannot carry the identities of all free blocks)'],
 )
